@@ -247,6 +247,10 @@ MUTANTS = [
     ('C08', 'lattice_lib.py', '        if (constraint_group[0] >= lattice_sizes[dominant_dim] - 1 or\n            constraint_group[1] >= lattice_sizes[weak_dim] - 1):\n          continue\n\n        rolled_back_weights = weights - last_change[\n            ("MONOTONIC_DOMINANCE"',
      '        if (constraint_group[0] >= lattice_sizes[weak_dim] - 1 or\n            constraint_group[1] >= lattice_sizes[dominant_dim] - 1):\n          continue\n\n        rolled_back_weights = weights - last_change[\n            ("MONOTONIC_DOMINANCE"', 'L3s', 'dominance group guard with swapped sizes'),
     ('C08', 'lattice_lib.py', '      is_first_part = (i < lattice_sizes[dimension] // 2)', '      is_first_part = (i < (lattice_sizes[dimension] + 1) // 2)', 'O3', 'unimodal split one vertex late on odd sizes'),
+    ('C18', 'premade_lib.py', '  if not np.issubdtype(np.asarray(labels).dtype, np.number):', '  if not np.issubdtype(labels[0], np.number):', 'V5t', 'value passed where a dtype is expected'),
+    ('C18', 'premade_lib.py', '  if not np.issubdtype(np.asarray(labels).dtype, np.number):', '  if not np.issubdtype(np.array(labels).dtype, np.number):', None, 'N: np.array instead of np.asarray'),
+    ('C12', 'pwl_calibration_layer.py', '    outputs = self.keypoints_outputs()\n', '    outputs = self.call(tf.constant(self.input_keypoints, dtype=self.dtype, shape=[len(self.input_keypoints), 1]))\n', 'A6', 'assertion subject computed through call()'),
+    ('C12', 'kronecker_factored_lattice_lib.py', '    min_weight = tf.reduce_min(weights)\n', '    min_weight = tf.reduce_min(tf.abs(weights))\n', 'A7', 'non-negativity assert on |weights|'),
     ('C17', 'premade_lib.py', '        # going out of bound on the lattice\n        addition_score = -2.0',
      '        # going out of bound on the lattice\n        addition_score = -1.0', 'W7', 'full lattice ties with a repeat'),
     ('C17', 'premade_lib.py', '        # going out of bound on the lattice\n        addition_score = -2.0',
